@@ -7,12 +7,12 @@ class C02(Prop):
     pid = "C02"
     prop_file = "Props/C02.v"
     module = "Props.C02"
-    gen_deps = ["Table", "ParserFn"]
+    gen_deps = ["Table", "ParserFn", "Utf8parseFn"]
     harness = ("h-core", "hcore")
     nontrivial_rule = ("cases: the 16 rows of the public state_change function (16x256, exhaustive); every byte string up to length L over the "
                        "28-symbol class alphabet (exhaustive; L=3 quick, 4 thorough); boundary-biased grammar streams; each stream again after a random prefix + CAN/SUB. "
                        "non-trivial = distinct case whose callback trace holds at least one event other than print/execute")
-    trusted = ["third-party utf8parse automaton: transcribed (Model/Utf8parse.v), tied by every UTF-8 case",
+    trusted = ["third-party utf8parse automaton: TRANSLATED from the registry source of the version Cargo.lock pins (tools/gen_fn_utf8parse.py: unpacked source = the archive of the lock file's checksum = the directory cargo metadata reports for the harness crates) and proved equal to Model/Utf8parse.v (Proofs/Utf8parseGen.v); also tied by every UTF-8 case. Trusted: cargo builds the harness from that directory; a Receiver = the list of calls it gets; char::from_u32_unchecked = identity (precondition proved)",
                "the value-level reading of the two unsafe idioms in the translation (tools/gen_fn_parser.py): a MaybeUninit slot is an option "
                "(uninitialised slot read back = None), transmute::<u8, State|Action> is the discriminant decoder"]
     assumptions = ["input bytes are < 256 (the Rust type u8)"]
